@@ -57,6 +57,47 @@ func profile() *vtx.Profile {
 	}
 }
 
+// udpControl: TCP allocations made over a datagram (UDP) control channel - the server accepts them - with
+// Connect, inbound peer connections and ConnectionBind requests that arrive on that control channel (there
+// is no stream listener to open a data connection to): such a bind is refused, and like every refused
+// request it changes nothing: the peer connection is closed when its 30 s are over.
+func udpControl() *vtx.Profile {
+	depth := 4
+	if rep.Thorough() {
+		depth = 5
+	}
+	ns := time.Nanosecond
+
+	return &vtx.Profile{
+		Name: "c16-tcp-relay-over-udp-control", Configs: []vtx.Config{{}}, Clients: []string{"c1"}, Peers: []string{"A", "B"},
+		Depth: depth, Drain: true, Resources: true,
+		Tags: map[string]bool{"tcp": true, "policy": true, "resp": true, "resources": true, "count": true},
+		Setup: func(vtx.Config) []vtx.Event {
+			return []vtx.Event{tcpAlloc("c1"), prof.E("perm", "c1", 0, "A")}
+		},
+		Menu: func(m *vtx.Model, now time.Time, _ int) []vtx.Event {
+			e := []vtx.Event{
+				prof.E("connect", "c1", 0, "B"), prof.E("connect", "c1", 0, "A"), prof.E("peerdial", "c1", 0, "A"),
+				{K: "refresh", C: "c1", L: 0},
+				{K: "cbind", C: "c1", N: 0xFFFF, Peers: []string{"c1"}, Rule: "control", L: -1},
+			}
+			for i := range m.ConnView["c1"] {
+				n := uint16(i) //nolint:gosec
+				e = append(e, vtx.Event{K: "cbind", C: "c1", N: n, Peers: []string{"c1"}, Rule: "control", L: -1},
+					vtx.Event{K: "closeconn", C: "c1", N: n, Rule: "peer", L: -1})
+			}
+
+			return append(e, vtx.AdvanceMenu(m, now, []time.Duration{ns}, nil)...)
+		},
+	}
+}
+
+func TestC16UDPControl(t *testing.T) {
+	r := rep.New("C16")
+	defer r.Write()
+	vtx.Explore(t, udpControl(), r)
+}
+
 func TestC16(t *testing.T) {
 	r := rep.New("C16")
 	defer r.Write()
